@@ -38,11 +38,43 @@ def lazy_class(cls):
     return sub
 
 
+class LazyList(list):
+    """list of k child nodes that come into existence when the code under test
+    iterates/indexes them (so creation order = order in which the walker reaches them)"""
+
+    def __init__(self, k, make):
+        super().__init__([None] * k)
+        self._make = make
+        self._done = 0
+
+    def _ensure(self, i):
+        while self._done <= i:
+            list.__setitem__(self, self._done, self._make())
+            self._done += 1
+
+    def __iter__(self):
+        for i in range(len(self)):
+            self._ensure(i)
+            yield list.__getitem__(self, i)
+
+    def __getitem__(self, i):
+        if isinstance(i, slice):
+            self._ensure(len(self) - 1)
+            return list.__getitem__(self, i)
+        if i < 0:
+            i += len(self)
+        self._ensure(i)
+        return list.__getitem__(self, i)
+
+    def materialised(self):
+        return [list.__getitem__(self, i) for i in range(self._done)]
+
+
 class Gen:
     """generator / bookkeeping for one symbolic tree"""
 
     def __init__(self, c, classes, depth, names, leaf, op_classes=None, unary=None, cmps=None, boolops=None,
-                 max_arity=2, keywords=False, recursion_at=None):
+                 max_arity=2, keywords=False, recursion_at=None, inner_classes=None, kw_names=("start", None)):
         self.c = c
         self.classes = list(classes)
         self.depth = depth
@@ -58,13 +90,17 @@ class Gen:
         self.events = []                    # ("node", node) | ("call", name)
         self.n = 0
         self.recursion_at = recursion_at    # node index whose materialisation raises RecursionError
+        self.inner_classes = inner_classes  # class pool below the root (None = same as root)
+        self.kw_names = list(kw_names)
+        self.chain_lengths = [1]            # comparison chain lengths explored
 
     # -- node creation
     def node(self, depth, parent=None, field=None, classes=None):
         self.n += 1
         if self.recursion_at is not None and self.n == self.recursion_at:
             raise RecursionError("maximum recursion depth exceeded (injected)")
-        pool = classes or (self.classes if depth > 0 else [k for k in self.classes if k in (ast.Constant, ast.Name)] or self.classes)
+        base = self.classes if (parent is None or self.inner_classes is None) else self.inner_classes
+        pool = classes or (base if depth > 0 else [k for k in base if k in (ast.Constant, ast.Name)] or [ast.Constant, ast.Name])
         cls = self.c.choice(f"node{self.n}", pool, labels=[k.__name__ for k in pool])
         n = lazy_class(cls)()
         object.__setattr__(n, "_gen", self)
@@ -83,7 +119,7 @@ class Gen:
     def children(self, parent, field, lo=1, hi=None):
         hi = self.max_arity if hi is None else hi
         k = self.c.choice(f"len_{parent._id}_{field}", list(range(lo, hi + 1)))
-        return [self.child(parent, field) for _ in range(k)]
+        return LazyList(k, lambda: self.child(parent, field))
 
     # -- fields
     def build_field(self, n, name):
@@ -92,6 +128,8 @@ class Gen:
         tag = f"{t.__name__}{n._id}.{name}"
         if name == "ctx":
             return ast.Load()
+        if t is ast.keyword:
+            return self.child(n, name) if name == "value" else None
         if t is ast.Constant:
             if name == "value":
                 return self.leaf(self, f"k{n._id}")
@@ -109,10 +147,10 @@ class Gen:
                 return self.children(n, name, 2, max(2, self.max_arity))
         if t is ast.Compare:
             if name == "ops":
-                k = c.choice(tag + ".n", [1, 2])
+                k = c.choice(tag + ".n", self.chain_lengths)
                 return [c.choice(f"{tag}{i}", self.cmps, labels=[q.__name__ for q in self.cmps])() for i in range(k)]
             if name == "comparators":
-                return [self.child(n, name) for _ in n.ops]
+                return LazyList(len(n.ops), lambda: self.child(n, name))
         if t is ast.Call:
             if name == "func":
                 return self.child(n, name)
@@ -122,11 +160,17 @@ class Gen:
                 if not self.keywords:
                     return []
                 k = c.choice(tag + ".n", [0, 1])
-                out = []
-                for i in range(k):
-                    kw = ast.keyword(arg=c.choice(f"{tag}{i}.arg", ["start", "ndigits", "default", None]), value=self.child(n, name))
-                    out.append(kw)
-                return out
+
+                def mk(i=[0]):
+                    kw = lazy_class(ast.keyword)()
+                    object.__setattr__(kw, "_gen", self)
+                    object.__setattr__(kw, "_depth", n._depth)
+                    object.__setattr__(kw, "_id", f"{n._id}kw{i[0]}")
+                    object.__setattr__(kw, "_parent", n)
+                    kw.arg = c.choice(f"{tag}{i[0]}.arg", self.kw_names)
+                    i[0] += 1
+                    return kw
+                return LazyList(k, mk)
         if t in (ast.List, ast.Tuple, ast.Set) and name == "elts":
             return self.children(n, name, 0)
         if t is ast.Dict:
@@ -176,10 +220,12 @@ class Gen:
                     v = n.__dict__[f]
                     if isinstance(v, ast.expr):
                         parts.append(f"{f}={show(v, d + 1)}")
+                    elif isinstance(v, LazyList) and f != "keywords":
+                        parts.append(f"{f}=[{', '.join(show(x, d + 1) for x in v.materialised())}{'' if v._done == len(v) else ', ...unreached'}]")
                     elif isinstance(v, list) and v and all(isinstance(x, ast.expr) for x in v):
                         parts.append(f"{f}=[{', '.join(show(x, d + 1) for x in v)}]")
-                    elif isinstance(v, list) and v and all(isinstance(x, ast.keyword) for x in v):
-                        parts.append(f"{f}=[{', '.join(str(x.arg) + '=' + show(x.value, d + 1) for x in v)}]")
+                    elif isinstance(v, LazyList) and f == "keywords":
+                        parts.append(f"{f}=[{', '.join(str(x.arg) + '=' + (show(x.__dict__['value'], d + 1) if 'value' in x.__dict__ else '<unread>') for x in v.materialised())}]")
                     elif isinstance(v, ast.AST):
                         parts.append(f"{f}={type(v).__name__}")
                     elif isinstance(v, list):
